@@ -30,3 +30,5 @@ def run(db, rep, tier):
     rep.floor('B.ops', len(data['ops']), 80)
     rep.sample('B.inv', 'families: ' + ', '.join(sorted(data['ops'])[:12]) + ' ...')
     rep.sample('B.inv', 'e.g. operator=(SU_vector&&) from v=owned2,o=ext3 with the cache refusing the insert: invariant and accounting hold on exit')
+    import fixtures
+    fixtures.controls_own(rep)
